@@ -45,6 +45,7 @@ pub fn run_c10(ctx: &mut Ctx) {
          Non-trivial: >= 2 pollers or a short-write/pending answer occurred; distinct by case");
     let mut rng = ctx.rng.fork();
     for ci in 0..ctx.n(1200, 10_000) {
+        if or.saturated() { or.count("stopped_early_saturated"); break; }
         let id = rng.range(1, 65535) as u16;
         let role = *rng.pick(&[1u16, 1, 2, 3]);
         let mc = 1 + rng.usize_below(1000);
@@ -153,6 +154,7 @@ pub fn run_c09(ctx: &mut Ctx) {
          is_writeable() sampled after every poll. Oracle: bytes returned per active stream vs what was sent, EOF persistence, writeable gate, replies in the byte log. Non-trivial: stream content or noise present; distinct by case");
     let mut rng = ctx.rng.fork();
     for ci in 0..ctx.n(2000, 12_000) {
+        if or.saturated() { or.count("stopped_early_saturated"); break; }
         let mc = 1 + rng.usize_below(200);
         let nl = rng.below(5);
         let case = gen_stream_case(&mut rng, nl, mc, false);
